@@ -126,4 +126,8 @@ def run(R, ctx):
     R.rule('R12.5', 'update_from replaces every field (shared with R02.6)')
     import c02 as _c02
     _c02.fields(Relabel(R, {'R02.6': 'R12.5'}), ctx)
+    # 'a consistent specification AND gate': the gate value computed inside the atomic update covers the specification it installs
+    # (max of the specification's level and every additional writer's ceiling; shared with R02.4)
+    R.rule('R12.6', 'the gate installed with a specification covers it: max(spec level, writers) (shared with R02.4)')
+    _c02.global_gate(Relabel(R, {'R02.4': 'R12.6'}), ctx)
 
